@@ -607,5 +607,5 @@ def signals_to_torch_feat_dir(args=None):
             ),
         )
         if options.manifest is not None:
-            print(utt_id, file=options.manifest)
+            print(utt_id, file=options.manifest, flush=True)
     return 0
